@@ -1,7 +1,7 @@
 """C07 — namespaced storage views are exact, disjoint windows: decided structural clauses (DESIGN.md §5 C07)."""
 from vlib import q
 from vlib.cfg import cfg_of
-from vlib.prov import peel, fmt, is_param, contains, alts, deep_peel, same_origin, leaves
+from vlib.prov import peel, fmt, is_param, contains, alts, deep_peel, same_origin, leaves, strip_adapters
 
 LEVEL = "other"
 LEVEL_TEXT = (
@@ -32,9 +32,11 @@ def check(ctx, cfg):
 
 
 def r5(ctx, cfg):
-    """shape of the carry loop in namespace_upper_bound: a copy of the input, indices len-1 .. 0, a 0xFF byte becomes 0
+    """shape of the carry loop in namespace_upper_bound: a copy of the input, positions len-1 .. 0, a 0xFF byte becomes 0
     and the scan continues, the first other byte is incremented by one and the scan stops (decides the structure of the
-    carry arithmetic, not byte-level facts about its result)"""
+    carry arithmetic, not byte-level facts about its result).  Form-agnostic: the scan may go over indices
+    `(0..input.len()).rev()` with `copy[i]`, or over the bytes themselves `copy.iter_mut().rev()` with `*byte`; the byte
+    test may be an `if` or a `match`."""
     F, P = cfg.facts, cfg.prov
     R = "C07.R5"
     key = NH + "namespace_upper_bound"
@@ -46,68 +48,83 @@ def r5(ctx, cfg):
     whole = [d for d in P.defs(f).get(l, []) if not d[3]["dst"]["p"]] if l is not None else []
     ok = len(whole) == 1 and is_param(P.call_origin(f, whole[0][3], whole[0][1]) if whole[0][0] == "call" else P.rvalue(f, whole[0][3]["rv"], (whole[0][1], whole[0][2])), "input")
     ctx.ob(R, key, "result-is-a-copy-of-the-input", ok, "namespace_upper_bound does not return a (modified) copy of its input", fn=f, sample="copy = input.to_vec(); ..; copy")
-    # iteration space: (0..input.len()).rev()
-    rng = [(b, i, st) for b, i, st in f.stmts() if st["k"] == "assign" and st["rv"].get("k") == "aggregate" and st["rv"].get("adt") == "std::ops::Range"]
-    ok = len(rng) == 1
-    d = "no Range aggregate"
+
+    def is_copy(o):
+        o = peel(o)
+        return o[0] == "param" and o[2] == "input"    # to_vec / iter_mut / deref_mut are value-preserving: the copy `is` the input bytes
+
+    # the scan: one loop, over rev(..) of either the index range of the input or the bytes of the copy
+    nxt = [(b, t) for b, t in f.calls() if t["callee"]["key"] in ("std::iter::Iterator::next", "std::iter::DoubleEndedIterator::next_back")]
+    ok = len(nxt) == 1
+    d = "%d loops" % len(nxt)
+    form = None
+    src = None
     if ok:
-        b, i, st = rng[0]
-        o = P.rvalue(f, st["rv"], (b, i))
-        dd = dict(o[2])
-        s, e = peel(dd["start"]), peel(dd["end"])
-        d = "%s..%s" % (fmt(s), fmt(e))
-        ok = s == ("const", "int", 0) and e[0] == "call" and e[1].endswith("len") and is_param(e[2][0], "input")
-        revs = [t for bb, t in f.calls() if t["callee"]["key"] == "std::iter::Iterator::rev"]
-        ok = ok and len(revs) == 1
-    ctx.ob(R, key, "scans-every-index-from-the-end", ok, "carry loop iterates %s (expected (0..input.len()).rev())" % d, fn=f, sample="(0..input.len()).rev()")
+        nb, nt = nxt[0]
+        src = peel(P.call_args(f, nt, nb)[0])
+        d = fmt(src)[:100]
+        if src[0] == "call" and src[1] == "std::iter::Iterator::rev":
+            inner = peel(src[2][0])
+            if inner[0] == "agg" and inner[1].startswith("std::ops::Range::"):
+                dd = dict(inner[2])
+                s0, e0 = peel(dd.get("start", ("?",))), peel(dd.get("end", ("?",)))
+                if s0 == ("const", "int", 0) and e0[0] == "call" and e0[1].endswith("len") and is_copy(e0[2][0]):
+                    form = "index"
+            elif is_copy(inner):
+                form = "bytes"
+        if nt["callee"]["key"].endswith("next_back"):
+            form = None
+    ctx.ob(R, key, "scans-every-index-from-the-end", form is not None, "carry loop iterates %s (expected (0..input.len()).rev() or copy.iter_mut().rev())" % d, fn=f,
+           sample="%s form: %s" % (form, d))
+    if form is None:
+        return
+
+    def is_pos(o):
+        """the scan position: the loop element"""
+        o = peel(o)
+        return o[0] == "bound" and o[1] == "elem" and same_origin(o[2], strip_adapters(src))
+
+    def is_byte(o):
+        """the byte at the scan position"""
+        o = peel(o)
+        if form == "bytes":
+            return is_pos(o)
+        return o[0] == "call" and o[1].rsplit("::", 1)[-1] in ("index", "index_mut") and is_copy(o[2][0]) and is_pos(o[2][1])
+
     # the byte test and the two arms
-    guards = []
-    for bid in f.order:
-        t = f.blocks[bid]["term"]
-        if t["k"] == "switch" and t.get("discr_ty") == "bool" and "discr_of" not in t:
-            pred, args, pol = q.norm_cond(P.operand(f, t["discr"], (bid, "t")), True)
-            if pred == "eq" and any(peel(x) == ("const", "int", 255) for x in args):
-                guards.append((bid, t, pol))
-    ok = len(guards) == 1
-    ctx.ob(R, key, "tests-byte==0xFF", ok, "expected one `copy[i] == 255` test, found %d" % len(guards), fn=f, sample="copy[i] == 255")
+    gs = [g for g in q.guards(P, f) if g[1] == "eq" and any(x == ("const", "int", 255) for x in g[2])]
+    ok = len(gs) == 1 and any(is_byte(x) for x in gs[0][2])
+    ctx.ob(R, key, "tests-byte==0xFF", ok, "expected one `byte == 255` test on the byte at the scan position, found %d" % len(gs), fn=f, sample="copy[i] == 255")
     if not ok:
         return
-    gb, gt, pol = guards[0]
-    ff_edge = other_edge = None
-    for e, v, n, tb in cf.switch_edges(gb):
-        val = True if v is None else (v != 0)
-        if val == pol:
-            ff_edge = e
-        else:
-            other_edge = e
-    nxt = [b for b, t in f.calls() if t["callee"]["name"] == "next" and t["callee"].get("trait") == "std::iter::Iterator"]
-    # writes through index_mut
+    gb, pred, gargs, ff_edge, other_edge = gs[0]
+    # writes to a byte of the copy
     writes = []
     for b, i, st in f.stmts():
         if st["k"] == "assign" and st["dst"]["p"] and st["dst"]["p"][0]["k"] == "deref":
             base = peel(P.local(f, st["dst"]["l"], (b, i)))
             while base[0] == "upd":
                 base = peel(base[1])
-            if base[0] == "call" and base[1].endswith("IndexMut::index_mut"):
-                writes.append((b, i, st, peel(P.rvalue(f, st["rv"], (b, i)))))
-    zero = [(b, v) for b, i, st, v in writes if v == ("const", "int", 0)]
-    inc = [(b, v) for b, i, st, v in writes if v[0] in ("binop", "field") and contains(v, lambda x: x[0] == "binop" and x[1] == "add" and peel(x[3]) == ("const", "int", 1))]
+            if (base[0] == "call" and base[1].endswith("IndexMut::index_mut")) or (base[0] == "bound" and base[1] == "elem"):
+                writes.append((b, i, st, peel(P.rvalue(f, st["rv"], (b, i))), base))
+    zero = [(b, v) for b, i, st, v, base in writes if v == ("const", "int", 0)]
+    inc = [(b, v) for b, i, st, v, base in writes if v[0] in ("binop", "field") and contains(v, lambda x: x[0] == "binop" and x[1] == "add" and peel(x[3]) == ("const", "int", 1) and is_byte(x[2]))]
     ok = len(writes) == 2 and len(zero) == 1 and len(inc) == 1
-    ctx.ob(R, key, "two-writes: 0 and +1", ok, "carry loop writes %s" % [fmt(v)[:40] for b, i, st, v in writes], fn=f, sample="copy[i] = 0 | copy[i] += 1")
-    if ok and nxt:
+    ctx.ob(R, key, "two-writes: 0 and +1", ok, "carry loop writes %s" % [fmt(v)[:40] for b, i, st, v, base in writes], fn=f, sample="copy[i] = 0 | copy[i] += 1")
+    if ok:
         zb, ib = zero[0][0], inc[0][0]
         ok1 = cf.dominates(ff_edge, zb) and not cf.dominates(ff_edge, ib) and cf.dominates(other_edge, ib)
         ctx.ob(R, key, "0xFF->0, other->+1", ok1, "the arms of the byte test are swapped or misplaced", fn=f, sample="== 255: zero it; else: increment")
         # after zeroing the scan continues (reaches next()), after incrementing it stops (never reaches next())
-        ok2 = nxt[0] in cf.reachable_from(zb) and nxt[0] not in cf.reachable_from(ib)
+        ok2 = nxt[0][0] in cf.reachable_from(zb) and nxt[0][0] not in cf.reachable_from(ib)
         ctx.ob(R, key, "carry-continues-after-0xFF-stops-after-increment", ok2, "the scan does not continue after a 0xFF byte / does not stop after the increment", fn=f,
                sample="zero -> next(); increment -> return")
-        # both writes index by the loop variable
-        idx_ok = True
+        # every byte access is at the scan position
+        idx_ok = all(is_byte(base) for b, i, st, v, base in writes)
         for b, t in f.calls():
             if t["callee"]["name"] in ("index", "index_mut"):
                 a = P.call_args(f, t, b)
-                idx_ok = idx_ok and peel(a[1])[0] == "some" and contains(a[1], lambda x: x[0] == "call" and x[1].endswith("Iterator::next"))
+                idx_ok = idx_ok and is_pos(a[1])
         ctx.ob(R, key, "indexed-by-the-scan-position", idx_ok, "a byte is read or written at an index other than the scan position", fn=f, sample="copy[i]")
 
 
@@ -432,8 +449,7 @@ def r4(ctx, cfg):
             e0 = peel(a0[1])
 
             def is_elem(o):
-                return contains(o, lambda x: x[0] == "call" and x[1].endswith("Iterator::next")) and contains(
-                    o, lambda x: x[0] == "param" and x[2] == "namespaces")
+                return contains(o, lambda x: x[0] == "bound" and x[1] == "elem" and is_param(peel(x[2]), "namespaces"))
             ok = cf.dominates(b0, b1) and b0 in cf.reachable_from(b1) and \
                 e0[0] == "call" and e0[1] == LP + "encode_length" and is_elem(e0[2][0]) and is_elem(a1[1]) and \
                 same_origin(e0[2][0], a1[1])
